@@ -76,9 +76,23 @@ type cmConv struct {
 	script    []int // ticker mode: outcomes consumed in order (then ok)
 	useScript bool
 	running   bool // the last Start succeeded and Close was not called since
+
+	// schedule points for clamgr_conc.go: when armed, called once from inside the next Start / Close
+	onStart, onClose func()
+}
+
+func (c *cmConv) takeHook(p *func()) func() {
+	c.mu.Lock()
+	h := *p
+	*p = nil
+	c.mu.Unlock()
+	return h
 }
 
 func (c *cmConv) Start() (error, bool) {
+	if h := c.takeHook(&c.onStart); h != nil {
+		h()
+	}
 	c.mu.Lock()
 	o := c.next
 	if c.useScript {
@@ -101,6 +115,9 @@ func (c *cmConv) Start() (error, bool) {
 	}
 }
 func (c *cmConv) Close() error {
+	if h := c.takeHook(&c.onClose); h != nil {
+		h()
+	}
 	c.mu.Lock()
 	c.running = false
 	c.mu.Unlock()
